@@ -1,6 +1,26 @@
 #!/bin/bash
-# usage: tools/process_seed.sh <PROP> <X> [SEEDROOT]  -- verify a delivered seeded change, then run the property's quick check against it
-P=$1; X=$2; export SEEDROOT=${3:-/tmp/seed_out3}
+# usage: tools/process_seed.sh <PROP> <X> [extra check ids...]   (SEEDROOT default /tmp/seed_out3)
+# Confirms a delivered seeded change in a scratch worktree (demo passes without, fails with; repository suite passes with the change),
+# then runs the quick check(s) against that worktree (VERIF_REPO_SRC), and removes the worktree. /repo itself is not touched.
+P=$1; X=$2; shift 2; EXTRA="$@"
+export SEEDROOT=${SEEDROOT:-/tmp/seed_out3}
+SRC=$SEEDROOT/$P; WT=/tmp/ps_${P}_$X; OUT=$SRC/verify_$X.txt; RES=$SRC/result_$X.txt
 BASE=$(git -C /repo rev-parse --short HEAD)
-/verif/tools/verify_seed.sh $P $X $BASE > /dev/null 2>&1
-cat $SEEDROOT/$P/verify_$X.txt | grep -E "demo_|patch_applies|passed|failed"
+rm -rf $WT; git -C /repo worktree prune
+git -C /repo worktree add -q --detach $WT $BASE || exit 2
+cp /repo/src/gbigsmiles/_version.py $WT/src/gbigsmiles/
+{
+echo "== base $BASE"
+cd $WT
+PYTHONPATH=$WT/src timeout 900 /venv/bin/python $SRC/demo_$X.py >/dev/null 2>&1; echo "demo_on_clean_exit=$?"
+git apply $SRC/$X.diff && echo "patch_applies=yes" || echo "patch_applies=NO"
+PYTHONPATH=$WT/src timeout 900 /venv/bin/python $SRC/demo_$X.py >/dev/null 2>&1; echo "demo_with_change_exit=$?"
+PYTHONPATH=$WT/src timeout 3000 /venv/bin/python -m pytest -q -p no:cacheprovider --timeout=900 -n 4 tests 2>&1 | tail -4
+} > $OUT 2>&1
+: > $RES
+for c in $P $EXTRA; do
+  echo "--- check $c against ${P}_$X" >> $RES
+  (cd /verif; VERIF_REPO_SRC=$WT/src VERIF_PROCS=${VERIF_PROCS:-8} ./check $c --tier quick 2>&1 | cut -c1-500 | grep -E "VIOLATION|oracle=|tier=|HARNESS" | head -12) >> $RES
+done
+cd /; git -C /repo worktree remove --force $WT
+echo "### ${P}_$X"; grep -E "demo_|patch_applies|passed|failed" $OUT | tr '\n' ' '; echo; cat $RES
